@@ -43,7 +43,39 @@ func emitEval(o *Out, text string, off int, hosts, data string, nontrivial bool)
 	for _, f := range fails {
 		o.Fail(line, f)
 	}
+	// the typed twin: the same case with every array / nested map of the data as a typed slice / typed map
+	if data != "-" && !inTwin && (strings.Contains(data, " A") || strings.Contains(data[1:], " O")) {
+		twinCount++
+		if twinCount%3 == 0 {
+			tw := typedTwin(data)
+			if tw != data {
+				inTwin = true
+				emitEval(o, text, off, hosts, tw, false)
+				inTwin = false
+			}
+		}
+	}
 	return obs
+}
+
+var (
+	inTwin    bool
+	twinCount int
+)
+
+// typedTwin rewrites A<n> to Z<n> everywhere and O<n> to Y<n> below the top level
+func typedTwin(data string) string {
+	toks := strings.Split(data, " ")
+	for i, t := range toks {
+		if len(t) >= 2 && t[1] >= '0' && t[1] <= '9' {
+			if t[0] == 'A' {
+				toks[i] = "Z" + t[1:]
+			} else if t[0] == 'O' && i > 0 {
+				toks[i] = "Y" + t[1:]
+			}
+		}
+	}
+	return strings.Join(toks, " ")
 }
 
 func wmap(kv ...string) string {
@@ -399,7 +431,7 @@ func suiteArith(o *Out, thorough bool, seed int64) {
 	}
 	for _, n := range ints {
 		data := wmap("x", fmt.Sprintf("Ii64:%d", n), "y", fmt.Sprintf("Ii:%d", n))
-		for _, t := range []string{fmt.Sprintf("x === %d", abs64s(n)), "x", "x + 1", "x - y", "[x, y]", fmt.Sprintf("y == %s", abs64s(n)), "x * 10", "x % 7"} {
+		for _, t := range []string{fmt.Sprintf("x === %s", abs64s(n)), "x", "x + 1", "x - y", "[x, y]", fmt.Sprintf("y == %s", abs64s(n)), "x * 10", "x % 7"} {
 			emitEval(o, t, 0, "-", data, true)
 		}
 	}
@@ -943,10 +975,10 @@ func sufficiencyOracle(o *Out, line, text, obs string) {
 
 // ---------- C11 ----------
 
-var bridgeArgVals = []string{"N", "T", "F", "Ii:0", "Ii:5", "D-:25:-1", "D+:3:0", "D+:12345678901:0", ws(""), ws("txt"), ws("12"),
+var bridgeArgVals = []string{"N", "T", "F", "Ii:0", "Ii:5", "D-:25:-1", "D+:3:0", "D+:12345678901:0", "D+:9007199254740993:0", "D-:9223372036854775807:0", "D+:1234567890123456789:-1", ws(""), ws("txt"), ws("12"),
 	"A0", "A2 D+:1:0 D+:2:0", "A2 " + ws("a") + " " + ws("b"), "A2 D+:1:0 N", wmap("k", "D+:1:0"), "O0", "M1700000000000000000:0", "P", "G" + hx([]byte("1.5")), "Iu8:7"}
 
-var bridgeTypes = []string{"s", "b", "i", "i8", "i16", "i32", "i64", "f32", "f64", "a", "d", "t", "[s", "[d", "[a", "[i", "{a", "{s", "u8"}
+var bridgeTypes = []string{"s", "b", "i", "i8", "i16", "i32", "i64", "f32", "f64", "a", "d", "t", "[s", "[d", "[a", "[i", "{a", "{s", "u8", "Ns", "Nb", "Ni", "Ni32", "Ni64", "Nf32", "Nf64", "Na", "N[s", "[Ns", "[Ni64", "{Ns"}
 
 func suiteBridge(o *Out, thorough bool, seed int64) {
 	r := newRand(seed, "bridge")
@@ -1072,6 +1104,31 @@ func suiteNames(o *Out, thorough bool, seed int64) {
 		for _, t := range []string{"a", "a.b", "a.b.c", "a!.b", "this", "this.a", "this.a.b", "len", "len.x", "abs", "a == null", "a === null", "this == null"} {
 			emitEval(o, t, 0, "-", d, true)
 		}
+	}
+	// struct values: exported fields, fields promoted from embedded structs (by value, by pointer, two levels, hidden
+	// by an outer field), unexported and missing names (errors), structs inside maps and arrays
+	{
+		sd := wmap("base", structWire(0), "acct", structWire(2), "pe", structWire(5), "pn", structWire(6), "sh", structWire(7), "deep", structWire(9),
+			"w", wmap("s", structWire(2), "n", "N"), "arr", "A2 "+structWire(0)+" "+structWire(5))
+		sroots := []string{"base", "acct", "pe", "pn", "sh", "deep", "w.s", "arr[0]", "arr[1]", "acct.SBase", "acct.Nested", "sh.SBase", "deep.SPtrEmb"}
+		snames := []string{"ID", "Owner", "hidden", "K", "S", "Name", "Balance", "Tags", "Meta", "Ptr", "When", "Nested", "Any", "Ratio", "Count", "Flag", "secret",
+			"SBase", "SInner", "SPtrEmb", "Level", "id", "Missing", "k"}
+		for _, rt := range sroots {
+			for _, nm := range snames {
+				for _, sep := range []string{".", "!."} {
+					emitEval(o, rt+sep+nm, 0, "-", sd, true)
+				}
+				emitEval(o, rt+"."+nm+" == null", 0, "-", sd, true)
+			}
+			emitEval(o, rt, 0, "-", sd, true)
+		}
+		for _, t := range []string{"acct.ID + 1", "acct.ID === 42", "acct.Owner + '!'", "acct.Balance * 2", "acct.Nested.K + 1", "acct.Nested.K === 9007199254740993", "acct.Meta.k", "acct.Meta.zz",
+			"acct.Tags[0]", "acct.Tags[1] + 1", "acct.Ptr.ID", "acct.Ptr!.ID", "acct.Any.x", "acct.Count * acct.Ratio", "acct.Flag ? acct.ID : 0", "year(acct.When)", "acct.SBase.Owner",
+			"sh.ID + sh.SBase.ID", "deep.K + deep.Level", "deep.SPtrEmb.Name", "pe.K", "pn.K", "pn.Name", "[base.ID, acct.ID, sh.ID]", "w.n.ID", "w.s.Nested.S == ''", "len(acct.Owner)",
+			"$a = acct.ID, $a + acct.ID", "acct.Missing ?? 1", "typeof acct", "typeof acct.ID", "acct == acct", "acct.Nested == acct.Nested", "!!acct", "acct ? 1 : 2", "acct && acct.ID"} {
+			emitEval(o, t, 0, "-", sd, true)
+		}
+		o.Stat("struct-programs")
 	}
 }
 
